@@ -287,7 +287,10 @@ func c08Run(p *Plan, x *Ctx, out *Outcome) {
 					}
 					call(r, o.S, []Val{FromVariant(d.res)}, o.I == 1)
 					if len(o.Vs) >= 3 {
-						noon := time.Date(int(o.Vs[0].I), time.Month(o.Vs[1].I), int(o.Vs[2].I), 12, 0, 0, 0, time.UTC)
+						// a civil date may not exist in a zone (Apia skipped 2011-12-30, midnight is skipped where
+						// daylight saving starts at 00:00): the standard library's reading of it in the run's zone counts
+						cy, cm, cd := time.Date(int(o.Vs[0].I), time.Month(o.Vs[1].I), int(o.Vs[2].I), 0, 0, 0, 0, time.Local).Date()
+						noon := time.Date(cy, cm, cd, 12, 0, 0, 0, time.UTC)
 						call(&ref, "DayOfWeek", []Val{VTime(noon)}, false)
 						r.extra = []*variants.Variant{ref.res}
 						r.extraErr = []error{ref.err}
@@ -394,7 +397,7 @@ func c08Run(p *Plan, x *Ctx, out *Outcome) {
 		p.Schedule = run.Executed
 	}
 	for _, e := range run.Executed {
-		out.Events.Int(int64(e.Task)).Int(e.Quantum).Int(e.JumpNs)
+		out.Sched.Int(int64(e.Task)).Int(e.Quantum).Int(e.JumpNs)
 	}
 	for _, t := range run.tasks {
 		if t.PanicVal != nil {
